@@ -31,6 +31,8 @@ var fixed = []core.Case{
 	{ID: "fix-two-cached-share", NT: true, Ops: []string{"pup x/AB 0", "pup z/AB 0", "pyr x/AB", "fetch x/AB 0 11", "pyr z/AB", "fetch z/AB 0 11", "del x/AB", "read z/AB", "gc 0", "read z/AB"}},
 	{ID: "fix-delete-after-reinit", NT: true, Ops: []string{"up x/AB 0", "up z/AB 0", "reinit", "del x/AB", "read z/AB"}},
 	{ID: "fix-delete-pinned-shared", NT: true, Ops: []string{"up x/AB 0", "up y/ABA 0", "pin y/ABA", "del y/ABA", "read x/AB", "del x/AB"}},
+	// repeated DELETE of a file that stays stored because it is pinned twice: the second DelFile runs on an unregistered root
+	{ID: "fix-double-delete-pinned-twice", NT: true, Ops: []string{"up x/AB 1", "up x/AB 1", "up z/AB 0", "del x/AB", "del x/AB", "up y/AB 0", "del y/AB", "read z/AB"}},
 	{ID: "fix-delete-repeated-chunk", NT: true, Ops: []string{"up s/AA 0", "up t/A 0", "del s/AA", "read t/A", "del t/A"}},
 }
 
